@@ -61,6 +61,9 @@ def run_history(rp, tasks, batches, extra=None, pilot_dies=None, waits=None):
     """real TaskManager._update_tasks on real Task objects; with `pilot_dies` (a final pilot state) all tasks are bound
     to one pilot which ends in that state after the last batch (real TaskManager._pilot_state_cb)"""
     tm  = stubs.make_tmgr(rp)
+    if not hasattr(tm, '_terminate'):
+        import threading
+        tm._terminate = threading.Event()
     cbs = []
     for t in tasks:
         stubs.make_task(rp, tm, 'task.%06d' % t['uid'], t['state'], pilot='pilot.0000' if pilot_dies else None)
@@ -80,7 +83,9 @@ def run_history(rp, tasks, batches, extra=None, pilot_dies=None, waits=None):
         dicts = [{'uid': 'task.%06d' % u['uid'], 'state': u['state'], 'type': 'task'}
                  for u in b]
         try:
-            tm._update_tasks(dicts)
+            # (the way a notification batch enters the task manager: the subscriber callback of the state channel)
+            if tm._state_sub_cb('state', {'cmd': 'update', 'arg': dicts}) is not True:
+                errs.append('subscriber-callback-asks-to-be-unregistered')
         except Exception as e:
             errs.append(exc_name(e))
     out_tasks = [{'uid': t['uid'], 'state': tm._tasks['task.%06d' % t['uid']].state,
@@ -120,6 +125,21 @@ def monitor(rp, tasks, batches, res, errs):
             t1 = [x for x in res['tasks'] if x['uid'] == t0['uid']][0]
             if t1['state'] != t0['state']:
                 return ('final-state-left', 'task %d: %s -> %s' % (t0['uid'], t0['state'], t1['state']))
+    # no notification is ignored: a task is as far as the most advanced notification that named it, and final once a
+    # final state was reported for it - wherever in its batch that notification stood
+    for t0 in tasks:
+        top, fin = vals[t0['state']] if t0['state'] not in FINAL else None, t0['state'] in FINAL
+        for b in batches:
+            for u in b:
+                if u['uid'] != t0['uid'] or fin: continue
+                if u['state'] in FINAL: fin = True
+                else: top = max(top, vals[u['state']])
+        t1 = [x for x in res['tasks'] if x['uid'] == t0['uid']][0]
+        if fin and t1['state'] not in FINAL:
+            return ('reported-final-state-not-observed', 'task %d was reported final, the application sees %s' % (t0['uid'], t1['state']))
+        if not fin and (t1['state'] in FINAL or vals[t1['state']] != top):
+            return ('most-advanced-notification-not-observed', 'task %d: notifications reach state value %s, the application sees %s'
+                    % (t0['uid'], top, t1['state']))
     return None
 
 
